@@ -89,6 +89,7 @@ structure Mon where
   injected : Bool := false      -- an event was scheduled into the current run while it was paused
   preSched : Bool := false      -- an event was scheduled from outside before a run
   resets : Nat := 0
+  start : Nat := 0              -- start_time of the simulation (the clock reset() goes back to)
 deriving Repr
 
 def sigBp := "control/breakpoint/not-paused-at-first-satisfying-delivery"
@@ -191,7 +192,7 @@ def Mon.cmd (m : Mon) (c : List String) (segs : List (List D × Seen × Bool)) :
   | ["RST"] =>
     let m' := { m with started := false, seen := last, pauseReq := false, injected := false,
                        resets := m.resets + 1 }
-    if !quiet segs || last.processed != 0 || last.now != 0 || last.paused || last.running then
+    if !quiet segs || last.processed != 0 || last.now != m.start || last.paused || last.running then
       (some "control/reset/state-not-initial", m')
     else (none, m')
   | "SCH" :: _ =>
@@ -280,7 +281,8 @@ def judge (body : List String) : List String :=
   if !isCtl then
     if log != ref then ["viol control/run-differs-from-uninterrupted"] else ["ok"]
   else
-    let r := monitor (pre.length + 1) {} pre
+    let start := ((pre.filterMap fun l => match toks l with | ["start", t] => some (natD t) | _ => none).head?).getD 0
+    let r := monitor (pre.length + 1) { start := start } pre
     match r.1 with
     | some s => [s!"viol {s}"]
     | none =>
